@@ -391,11 +391,11 @@ static int _handle_digestmd5_challenge(xmpp_conn_t *conn,
     if (strcmp(name, "challenge") == 0) {
         text = xmpp_stanza_get_text(stanza);
         response = sasl_digest_md5(conn->ctx, text, conn->jid, conn->pass);
+        strophe_free(conn->ctx, text);
         if (!response) {
             disconnect_mem_error(conn);
             return 0;
         }
-        strophe_free(conn->ctx, text);
 
         auth = xmpp_stanza_new(conn->ctx);
         if (!auth) {
